@@ -146,7 +146,13 @@ PtHeaderItem(i) ==
     LET base == PtItem(IF i = 1 THEN "interface" ELSE "contract", [x \in 1..5 |-> 0]) IN
     IF i = 1 THEN [base EXCEPT !.id = "PH1", !.self_ty = "Iface: Send + Sync"]
     ELSE [base EXCEPT !.id = "PH2", !.wheres = <<[text |-> "u32: Copy", mentions |-> <<>>]>>]
-PtFamily == {PtHeaderItem(i) : i \in 1..2} \cup {PtCfgItem(mac, site) : mac \in {"contract", "interface"}, site \in 1..3} \cup {PtModuleItem} \cup {PtAttrFirstItem(mac) : mac \in {"contract", "interface"}} \cup {PtLintItem(i) : i \in 1..4} \cup {PtIfacesItem(n) : n \in {2, 3, 5}} \cup {PtItem(mac, c) : mac \in {"contract", "interface", "entry_points"}, c \in [1..5 -> 0..PtChoices]}
+(* handlers with parameters declared `mut` that their bodies assign to: an interface handler with a default body, a contract handler *)
+PtMutItem(mac) ==
+    LET base == PtItem(mac, [x \in 1..5 |-> 0])
+        hix == IF mac = "interface" THEN 1 ELSE 3 IN
+    [base EXCEPT !.id = "PU" \o (IF mac = "interface" THEN "i" ELSE "c"),
+                 !.members[hix] = [@ EXCEPT !.params = <<P("mut x", "u32"), P("mut y", "String")>>, !.body = "x += 1; y.push('z'); todo!()"]]
+PtFamily == {PtMutItem(mac) : mac \in {"contract", "interface"}} \cup {PtHeaderItem(i) : i \in 1..2} \cup {PtCfgItem(mac, site) : mac \in {"contract", "interface"}, site \in 1..3} \cup {PtModuleItem} \cup {PtAttrFirstItem(mac) : mac \in {"contract", "interface"}} \cup {PtLintItem(i) : i \in 1..4} \cup {PtIfacesItem(n) : n \in {2, 3, 5}} \cup {PtItem(mac, c) : mac \in {"contract", "interface", "entry_points"}, c \in [1..5 -> 0..PtChoices]}
 
 (* ------------------------------------------------------------------ fw *)
 Marker(i) == A("doc", "= \"m" \o ToString(i) \o "\"")
@@ -290,7 +296,9 @@ GenNonPathItem(t, pos, id) == GenItem(IF pos = 1 THEN t ELSE TyNone, IF pos = 2 
 SelfTy(t) == [ty |-> "Self::" \o t, mentions |-> <<t>>]
 SelfOpt(t) == [ty |-> "Option<Self::" \o t \o ">", mentions |-> <<t>>]
 SelfVecPair(t, u) == [ty |-> "Vec<(Self::" \o t \o ", Self::" \o u \o ")>", mentions |-> IF t = u THEN <<t>> ELSE <<t, u>>]
+SelfAbsVec(t) == [ty |-> "::std::vec::Vec<Self::" \o t \o ">", mentions |-> <<t>>]      \* the wrapper spelled as an absolute path
 IfaceArgTypes == {TyNone} \cup {SelfTy(TP(i)) : i \in 1..GenParams} \cup {SelfOpt(TP(GenParams))} \cup {SelfVecPair(TP(1), TP(GenParams))}
+                 \cup {SelfAbsVec(TP(1))}
 GenIfaceItem(te, tq, ts, tr, late, id) ==
     [BaseItem(id, "gen", "interface") EXCEPT
        !.attrs = <<A("sv::custom", "msg = Empty, query = Empty")>>,
